@@ -14,43 +14,7 @@ from ..harness import Session, canon_gateway
 
 MOD = __name__
 
-T_WINTER = calendar.timegm((2024, 1, 15, 12, 0, 0))
-T_SUMMER = calendar.timegm((2024, 7, 15, 12, 0, 0))
-# POSIX TZ rule -> utc offset in seconds at (winter, summer), computed by hand from the rule
-TZS = {
-    "UTC0": (0, 0),
-    "IST-5:30": (19800, 19800),
-    "PST8": (-28800, -28800),
-    "EST5EDT,M3.2.0,M11.1.0": (-18000, -14400),
-}
-
-_orig_localtime = time.localtime
-_orig_time = time.time
-_orig_gmtime = time.gmtime
-_frozen = {"tz": None, "t": None}
-
-
-def freeze(tz: str, t: int) -> None:
-    if _frozen["tz"] != tz:
-        os.environ["TZ"] = tz
-        time.tzset()
-        _frozen["tz"] = tz
-    if _frozen["t"] != t:
-        _frozen["t"] = t
-
-        def localtime(secs=None):
-            return _orig_localtime(_frozen["t"] if secs is None else secs)
-
-        time.localtime = localtime
-        time.gmtime = lambda secs=None: _orig_gmtime(_frozen["t"] if secs is None else secs)
-        time.time = lambda: float(_frozen["t"])
-
-
-def unfreeze() -> None:
-    time.localtime = _orig_localtime
-    time.time = _orig_time
-    time.gmtime = _orig_gmtime
-    _frozen["t"] = None
+from ..timefreeze import T_SUMMER, T_WINTER, TZS, default as unfreeze, freeze  # noqa: E402
 
 
 def expected_time(tz: str, t: int) -> int:
